@@ -13,11 +13,13 @@ Definition E_wit : env :=
      e_bk := fun _ => [];
      e_fmt := fun c f => if N.eqb c 1 && N.eqb f 1 then [it_fc] else [];
      e_user := fun o => if N.eqb o 0 then [it_st] else [];
-     e_parse := fun k => if str_eqb k (lit "sel") then Some tree_sel else None |}.
+     e_parse := fun k => if str_eqb k (lit "sel") then Some tree_sel else None;
+     e_src := fun _ => SigmaErr 8;
+     e_files := [] |}.
 Definition r_win : rule :=
   {| r_bad := None; r_mods := []; r_product := 1;
      r_dets := [(lit "sel", [{| di_field := lit "fieldC"; di_text := lit "1"; di_kind := VNum |}])];
-     r_conds := [lit "sel"] |}.
+     r_conds := [lit "sel"]; r_fields := [] |}.
 
 (* D18: one user pipeline object given to two backends; init A, init B, then A.convert_rule:
    the state written by the items lands in B's pipeline object *)
